@@ -276,6 +276,14 @@ def weighted_blocks():
         out.append(case(F, multi([1, 2, 3], [[1], [2]], [], True, mode, "equal"), "C", ["weights", "Multi", mode, "weighted-in-one-crossing"], "wblk-multi-%s-a" % mode))
         out.append(case(F, multi([1, 2, 3], [[2], [1]], [], True, mode, "equal"), "C", ["weights", "Multi", mode, "weighted-in-one-crossing"], "wblk-multi-%s-b" % mode))
     out.append(case(F, rep(cross([1, 2], [1]), [K("MinimumTrials", k=6)]), "C", ["weights", "Repeat"], "wblk-repeat-crossed"))
+    # a weighted crossed level with a trailing partial round whose length lies between the smallest and the largest weight
+    for m in (4, 5, 8):
+        out.append(case(F, rep(cross([1, 2], [1]), [K("MinimumTrials", k=m)]), "C", ["weights", "Repeat", "leftover"],
+                        "wblk-repeat-crossed-min%d" % m))
+    Fw3 = [basic("a", 3, [3, 1, 2]), basic("b", 2)]
+    for m in (8, 9):
+        out.append(case(Fw3, rep(cross([1], [1]), [K("MinimumTrials", k=m)]), "C", ["weights", "Repeat", "leftover"],
+                        "wblk-repeat-w312-min%d" % m))
     out.append(case(F, rep(cross([2, 3], [2]), [K("MinimumTrials", k=4)]), "C", ["weights", "Repeat", "weights-uncrossed"], "wblk-repeat-uncrossed"))
     out.append(case(F, rep(cross([2, 3], [2], [K("AtMostKInARow", k=1, f=3, l=2)]), [K("MinimumTrials", k=4)]), "C",
                     ["weights", "Repeat", "weights-uncrossed", "inner", "AtMost1"], "wblk-repeat-uncrossed-in"))
